@@ -19,7 +19,7 @@ def main():
     rng = random.Random(chk.seed)
     quick = chk.tier == "quick"
     cases, jobs, pyres, records, tail_ok, errors = C.canonical_ops(
-        chk, 150 if quick else 2500, 6 if quick else 1, 3 if quick else 4, rng, k=2)
+        chk, 150 if quick else 600, 6 if quick else 2, 3 if quick else 4, rng, k=2)
     C.report_build_errors(chk, cases, errors)
     for i, vi, e, h, o in records:
         chk.count()
